@@ -219,8 +219,7 @@ theorem count_names_append (l : List Item) (it : Item) (n : PName) :
   simp only [names, List.map_append, List.map_cons, List.map_nil, List.count_append, List.count_singleton]
   by_cases h : it.name = n
   · simp [h]
-  · have : ¬ (n = it.name) := fun h' => h h'.symm
-    simp [h, this]
+  · simp [h]
 
 theorem flags_get_set (fl : Flags) (n m : PName) : (fl.set n).get m = (if n = m then true else fl.get m) := by
   cases n <;> cases m <;> simp [Flags.set, Flags.get]
